@@ -1024,6 +1024,23 @@ fn parse_expr_binop(
                 }
             };
 
+            // There are no vectors of literals - a literal used with a bool vector takes the sized type
+            let target_nv_id = if matches!(dim, ir::NumericDimension::Scalar) {
+                target_nv_id
+            } else {
+                match context.module.type_registry.get_type_layer(target_nv_id) {
+                    ir::TypeLayer::Scalar(ir::ScalarType::IntLiteral) => context
+                        .module
+                        .type_registry
+                        .register_type(ir::TypeLayer::Scalar(ir::ScalarType::Int32)),
+                    ir::TypeLayer::Scalar(ir::ScalarType::FloatLiteral) => context
+                        .module
+                        .type_registry
+                        .register_type(ir::TypeLayer::Scalar(ir::ScalarType::Float32)),
+                    _ => target_nv_id,
+                }
+            };
+
             // Apply the found dimension (to both sides of input)
             let ty = match dim {
                 ir::NumericDimension::Scalar => target_nv_id,
